@@ -331,10 +331,11 @@ def run_unit(modname, keep_dir=None, rlimit=None):
         (res.canary_ok if (c in canary_failed or c in timed_out) else res.canary_bad).append(c)
     # obligations = verification units reported by Verus (functions, lemmas, loops counted inside)
     res.obligations = sorted(k for k in res.fn_times if not k.endswith('__canary'))
-    if res.status == 'undecided' and res.reason:
-        return res
-    if res.failures:
+    if res.failures and (not res.reason or res.reason.startswith('resource limit')):
+        # a definite semantic failure is a violation even if some other obligation ran out of resources
         res.status = 'violation'
+        return res
+    if res.status == 'undecided' and res.reason:
         return res
     if res.canary_bad:
         res.status = 'undecided'
